@@ -430,20 +430,20 @@ Proof.
   - assert (IU : inu (getcs h c) = true) by (unfold inu; rewrite A, U; reflexivity).
     destruct (iv_fl _ _ I c Hc IU) as [Q _].
     destruct (slot v c true _) as [[h1 r]|] eqn:SL; [|discriminate]. simpl.
-    unfold recv_unchoke. destruct (_ <? _); [discriminate|].
-    destruct (connection_unqueued c _) as [h3|] eqn:CU; [|discriminate]. intros H; injection H as <-.
-    eapply (choke_deq_inv d v c (set_s true) (set_q false) h h1 r); [exact Hd|exact I|exact Hc|exact IU| | | | | | |exact SL|exact CU]; simpl; auto.
+    unfold recv_unchoke. destruct (_ <? _); [discriminate|]. intros CU.
+    rewrite <- (updcs_id c h').
+    eapply (choke_deq_inv d v c (set_s true) (fun s => s) h h1 r); [exact Hd|exact I|exact Hc|exact IU| | | | | | |exact SL|exact CU]; simpl; auto.
     + intros Ed. left. apply (iv_r _ _ I Ed c Hc Q).
     + unfold inq; simpl. rewrite !andb_false_r. reflexivity.
     + unfold inu; simpl. rewrite andb_false_r. reflexivity.
-    + intros _. discriminate.
+    + intros Ed _. apply (iv_r _ _ I Ed c Hc Q).
   - destruct (cs_q (getcs h c)) eqn:Q; simpl.
-    + destruct (connection_unqueued c _) as [h3|] eqn:CU; [|discriminate]. intros H; injection H as <-.
-      eapply (deq_inv d h c (set_s true) (set_q false)); [exact I|exact Hc| | | | |exact CU]; simpl.
+    + intros CU. rewrite <- (updcs_id c h').
+      eapply (deq_inv d h c (set_s true) (fun s => s)); [exact I|exact Hc| | | | |exact CU]; simpl.
       * unfold inu. rewrite U, andb_false_r. reflexivity.
       * unfold inq; simpl. rewrite !andb_false_r. reflexivity.
       * unfold inu; simpl. rewrite U, andb_false_r. reflexivity.
-      * intros _. discriminate.
+      * intros Ed _. apply (iv_r _ _ I Ed c Hc Q).
     + intros H; injection H as <-. apply flag_inv; auto.
       * unfold inq; simpl. rewrite Q. rewrite !andb_false_r. reflexivity.
       * unfold inu; simpl. rewrite U, andb_false_r. discriminate.
